@@ -98,7 +98,9 @@ Definition rebuilt (s : st) : option cells :=
 Definition full_due (s : st) : bool :=
   full_needed s || match snaps s with [] => true | _ => false end.
 
-Inductive outcome := POk | PNotInvoked | PFailBefore | PFailAfter.
+(* PBlocked: fsmSnapshot itself fails -- the TRUNCATE checkpoint is blocked by a reader (250 ms timeout) -- before
+   anything is staged, cleared or persisted *)
+Inductive outcome := POk | PNotInvoked | PFailBefore | PFailAfter | PBlocked.
 
 Inductive op :=
 | OWrite (ks : list N) (v : N)
@@ -130,6 +132,7 @@ Definition snapshot_step (clear : bool) (s : st) (o : outcome) : st * N :=
         (match staging s2 with [] => set_full s2 true | _ => s2 end, 0)
     | PFailAfter => (set_full (set_staging s2 []) true, 0)
     | POk => (set_full (set_snaps s2 (SFull (applied s2) (dbf s2) [] :: snaps s2)) false, 0)
+    | PBlocked => (s, 7)
     end
   else
     match wal s with
@@ -141,6 +144,7 @@ Definition snapshot_step (clear : bool) (s : st) (o : outcome) : st * N :=
         | PNotInvoked | PFailBefore => (s1, 0)       (* staged WALs kept for the next snapshot *)
         | PFailAfter => (set_full (set_staging s1 []) true, 0)
         | POk => (set_full (set_staging (set_snaps s1 (SInc (applied s1) (staging s1) :: snaps s1)) []) false, 0)
+        | PBlocked => (s, 7)
         end
     end.
 
@@ -195,7 +199,7 @@ Definition dump (d : cells) : list N := map (get d) universe.
 Definition dump_opt (d : option cells) : list N := match d with Some c => dump c | None => map (fun _ => 888888) universe end.
 
 Record obs := {
-  o_res : N;                        (* 0 done, 1 nothing to snapshot, 3 load rejected *)
+  o_res : N;                        (* 0 done, 1 nothing to snapshot, 3 load rejected, 7 checkpoint blocked *)
   o_staged : N;
   o_cat : list (bool * N * N);      (* newest first: is-full, index (number of log entries covered), WAL files *)
   o_full : bool;
